@@ -396,9 +396,11 @@ C10_Step ==
         /\ mem' = mem \ {e.arg}
         /\ IF ~dead /\ ~ulocked THEN under' = under \ {e.arg} ELSE under' = under
         /\ e.res.ok = (e.arg \in mem \/ (~dead /\ ~ulocked /\ e.arg \in under))
+  \* "removing all makes it disappear" is demanded when the removal succeeds; when the underlying agent refuses,
+  \* the call fails and nothing new appears (whether the in-memory table is cleared anyway is not stated)
   /\ (e.op = "removeall" /\ NF /\ ~locked) =>
-        /\ mem' = {}
-        /\ IF ~dead /\ ~ulocked THEN (e.res.ok /\ under' = {}) ELSE (~e.res.ok /\ under' = under)
+        IF ~dead /\ ~ulocked THEN (e.res.ok /\ under' = {} /\ mem' = {})
+        ELSE (~e.res.ok /\ under' = under /\ mem' \subseteq mem)
   /\ (e.op = "forward" /\ NF) => (UNCHANGED <<under, mem>> /\ (~dead => (e.res.ok /\ e.res.by = "relayed")))
   /\ (e.op = "extension") => (UNCHANGED <<under, mem>> /\ (e.res.ok => e.res.by = "relayed"))
   \* construction (shimagent.New): lists the underlying agent only in no-upstream mode; a failure of
